@@ -51,7 +51,14 @@ def from_registry(tp: dict[str, Any]) -> Program:
         given = [registry.given_values(tp)]
     elif registry.input_kind(tp) == "none":
         given = [[]]
+    # loops whose trip count is steered by the data: only the project's own value
+    # range is known to terminate (a hostile draw made the JAX reference spin forever)
+    fc = ic = None
+    if "while" in tp["_family"].lower() or "while" in str(tp.get("testcase", "")).lower():
+        fc, ic = ["benign"], ["benign"]
     return Program(
+        float_classes=fc,
+        int_classes=ic,
         pid=tp["_pid"],
         family=tp["_family"],
         make_fn=lambda: registry.instantiate(tp),
